@@ -171,7 +171,7 @@ fn check_word(body: &str, nsyms: usize, cx: &mut Cx) {
 fn run(r: &mut Run) -> Result<(), MachineryError> {
     let t = r.tier;
     let alpha = [L, HY, W, CM, SP, D, CSI, OSS, E2, ZW, OP, EM, OSH];
-    let n = t.pick(4, 5);
+    let n = t.pick(5, 6);
     let space = Space { name: "C12/words".into(), menu: menu(&alpha), max_len: n, desc: format!("words of length <= {} symbols (trailing spaces trimmed) x whitespace x penalty x 4 splitters x limits", n) };
     r.space(space, |seq, cx| {
         let body = build(seq, &alpha);
@@ -191,7 +191,7 @@ fn run(r: &mut Run) -> Result<(), MachineryError> {
         }
     })?;
     let core = [L, HY, W, CM, D, CSI, OSH, CSIT];
-    let n = t.pick(5, 6);
+    let n = t.pick(6, 7);
     let space = Space { name: "C12/words-core-deeper".into(), menu: menu(&core), max_len: n, desc: format!("words of length <= {} over the 8 symbols that drive hyphen splitting and force-breaking (incl. a CSI with a non-letter final byte)", n) };
     r.space(space, |seq, cx| {
         let body = build(seq, &core);
